@@ -4,3 +4,36 @@ TYPES = [
     dict(name="BinOperator", src="src/bin_operator.rs", path=[("enum", "BinOperator")]),
     dict(name="UnaryOperator", src="src/unary_operator.rs", path=[("enum", "UnaryOperator")]),
 ]
+INS = "src/instruction.rs"
+CF = "src/instruction/control_flow/"
+TYPES += [
+    dict(name="ExecStop", src=INS, path=[("enum", "ExecStop")]),
+    dict(name="ExecResult", src=INS, semi=("type", "ExecResult")),
+    dict(name="From<ExecError> for ExecStop", src=INS, path=[("impl", "From<ExecError> for ExecStop")],
+         post="""impl vstd::std_specs::convert::FromSpecImpl<ExecError> for ExecStop {
+    open spec fn obeys_from_spec() -> bool { true }
+    open spec fn from_spec(v: ExecError) -> ExecStop { ExecStop::Error(v) }
+}"""),
+    dict(name="InstructionWithStr", src=INS, path=[("struct", "InstructionWithStr")],
+         rewrites=[("Arc<str>", "Name")]),
+    dict(name="Instruction", src=INS, path=[("enum", "Instruction")],
+         rewrites=[("Arc<Array>", "Arc<ArrayIns>"), ("Arc<Mut>", "Arc<MutIns>"), ("Arc<Struct>", "Arc<StructIns>"),
+                   ("Tuple(Tuple)", "Tuple(TupleIns)"), ("Arc<str>", "Name")]),
+    dict(name="BinOperation", src="src/instruction/bin_op.rs", path=[("struct", "BinOperation")]),
+    dict(name="UnaryOperation", src="src/instruction/unary_operation.rs", path=[("struct", "UnaryOperation")]),
+    dict(name="IfElse", src=CF + "if_else.rs", path=[("struct", "IfElse")]),
+    dict(name="SetIfElse", src=CF + "set_if_else.rs", path=[("struct", "SetIfElse")], rewrites=[("Arc<str>", "Name")]),
+    dict(name="Loop", src="src/instruction/loop.rs", semi=("struct", "Loop")),
+    dict(name="Set", src="src/instruction/set.rs", path=[("struct", "Set")], rewrites=[("Arc<str>", "Name")]),
+    dict(name="ArrayRepeat", src="src/instruction/array_repeat.rs", path=[("struct", "ArrayRepeat")]),
+]
+TYPES += [
+    dict(name="Block", src="src/instruction/block.rs", path=[("struct", "Block")]),
+    dict(name="DestructTuple", src="src/instruction/destruct_tuple.rs", path=[("struct", "DestructTuple")],
+         rewrites=[("Arc<[Arc<str>]>", "Arc<[Name]>")]),
+    dict(name="Match", src=CF + "match.rs", path=[("struct", "Match")]),
+    dict(name="MatchArm", src=CF + "match_arm.rs", path=[("enum", "MatchArm")], rewrites=[("Arc<str>", "Name")]),
+    dict(name="Body", src="src/function/body.rs", path=[("enum", "Body")],
+         rewrites=[("pub(crate) ", "pub "), ("fn(&mut Interpreter) -> Result<Variable, ExecError>", "NativeFn")]),
+    dict(name="Function", src="src/function.rs", path=[("struct", "Function")], rewrites=[("Arc<str>", "Name"), ("pub(crate) ", "pub ")]),
+]
